@@ -143,6 +143,11 @@ func NewEnv(cfg Cfg) (*Env, error) {
 		"CREATE TABLE ledger (id INTEGER PRIMARY KEY, k INTEGER)",
 		"INSERT INTO ledger VALUES (1, 0)",
 		"CREATE TABLE t0 (id INTEGER PRIMARY KEY, a INTEGER, v BLOB)",
+		// application tables whose names resemble litestream's own: they are the application's, not litestream's
+		"CREATE TABLE _litestream_audit (id INTEGER PRIMARY KEY, note TEXT)",
+		"INSERT INTO _litestream_audit VALUES (1, 'owned by the application')",
+		"CREATE TABLE xlitestream_cfg (k TEXT PRIMARY KEY, v TEXT)",
+		"INSERT INTO xlitestream_cfg VALUES ('a', 'b')",
 		"CREATE INDEX i0 ON t0 (a)", // an index that was never analyzed: anything that runs ANALYZE / PRAGMA optimize on the application's database shows up as sqlite_stat tables
 	} {
 		if _, err := e.App.Exec(q); err != nil {
@@ -229,7 +234,7 @@ func UserDigest(q interface {
 	Query(string, ...any) (*sql.Rows, error)
 }) (string, error) {
 	h := sha256.New()
-	rows, err := q.Query("SELECT type, name, tbl_name, COALESCE(sql,'') FROM sqlite_master WHERE name NOT LIKE '\\_litestream\\_%' ESCAPE '\\' ORDER BY name")
+	rows, err := q.Query("SELECT type, name, tbl_name, COALESCE(sql,'') FROM sqlite_master WHERE name NOT IN ('_litestream_seq','_litestream_lock') ORDER BY name")
 	if err != nil {
 		return "", err
 	}
